@@ -261,14 +261,16 @@ func (opts *ParseRealtimeOptions) timezoneOrUTC() *time.Location {
 }
 
 func ParseRealtime(content []byte, opts *ParseRealtimeOptions) (*Realtime, error) {
+	// Work on a copy: the caller's options are never written to, so one options value can be
+	// shared between concurrent calls.
+	feedOpts := *opts
+	opts = &feedOpts
 	if opts.Extension == nil {
 		opts.Extension = extensions.NoExtension()
 	}
 	if perFeed, ok := opts.Extension.(extensions.PerFeedExtension); ok {
 		// The extension keeps state while it processes a message: use a fresh instance for this one.
-		feedOpts := *opts
-		feedOpts.Extension = perFeed.NewFeed()
-		opts = &feedOpts
+		opts.Extension = perFeed.NewFeed()
 	}
 	feedMessage := &gtfsrt.FeedMessage{}
 	if err := proto.Unmarshal(content, feedMessage); err != nil {
